@@ -1,0 +1,14 @@
+//go:build verif
+
+// Contracts for the VC generator in /verif (comment-only).
+
+package jp
+
+//@ unit jpparse
+
+// Object invariant of the JSONPath / script text parser: the read position stays inside the buffer.
+//@ pred PInv(p) = 0 <= p.pos && p.pos <= len(p.buf)
+
+// Every method of the recursive-descent parser keeps the invariant and the buffer; syntax errors are raised by
+// p.raise (a controlled panic recovered in Parse); no runtime fault on any input.
+// (The sweep of the text parser methods is not enabled yet: several methods need individual pre/postconditions.)
